@@ -664,6 +664,15 @@ def h_after_peer_drop(ctx, kinds):
              % (len(disp.out) - n0, refused), len(disp.out) == n0)]
 
 
+def h_login_wire(ctx, second):
+    """the handshake thread's first write against the thread that starts it, and the first bytes of a later login on the same stack:
+    the real noise and segments layers (C16's lifecycle stack), the handshake worker writing its first message as soon as it is started"""
+    from checks import c16
+    prefix = ("connect-request", "connected") + (("peer-close", "connect-request", "connected") if second else ())
+    obs = c16.h_history(ctx, len(prefix), prefix, True)
+    return [(l, o) for l, o in obs if "on the wire" in l or "nothing was ever written" in l]
+
+
 def h_big_frames(ctx):
     """stanzas around and above 1 MiB between small ones: the peer (strict, in order) still cuts and decrypts every frame"""
     from yowsup.structs import ProtocolTreeNode
@@ -697,6 +706,7 @@ def h_big_frames(ctx):
 def cases(tier):
     cs = [dict(name="after-peer-drop[app+keepalive]", fn=h_after_peer_drop, args=(("app", "keepalive"),)),
           dict(name="big-frames", fn=h_big_frames, keep_samples=8),
+          dict(name="login-wire[first login]", fn=h_login_wire, args=(False,)), dict(name="login-wire[second login on the same stack]", fn=h_login_wire, args=(True,)),
           dict(name="after-refused-send[app+keepalive]", fn=h_after_failure, args=(("app", "keepalive"),)),
           dict(name="races[app+app2,1 send]", fn=h_races, args=(("app", "app2"), 1), timeout_s=900, weight=20, keep_samples=64),
           dict(name="races[coder+coder2,1 send]", fn=h_races, args=(("coder", "coder2"), 1), timeout_s=900, weight=20, keep_samples=64),
